@@ -372,6 +372,10 @@ def cases(draw, tier='quick'):
         'round': rnd, 'out': draw(st.sampled_from(['path', 'dir'])), 'tmp': draw(st.booleans()),
         'expected_max': draw(st.sampled_from([20, 20, None])), 'log': draw(st.integers(0, 3)) == 0,
         'label': f'{profile}/{fault}',
+        # one GeneIdMapper object used for several files in a row (the cases of a shard process share it)
+        'shared_mapper': mapper != 'inferred' and draw(st.booleans()),
+        'obs_index_name': draw(st.sampled_from([None, None, None, 'cell_label'])),
+        'var_index_name': draw(st.sampled_from([None, None, None, 'gene_identifier', 'gene_symbol'])),
     }
 
 
